@@ -130,7 +130,7 @@ PROPS = {
         "partial": ["label: partial (protocol proved for all N and interleavings; footprint of the Go code by race detector)"],
     },
     "C02": {
-        "generators": [("f64", 3000, 60000), ("c02", 6000, 160000)],
+        "generators": [("f64", 3000, 60000), ("c02", 6000, 160000), ("c02tiny", 16000, 400000)],
         "modules": ["S2.F64", "S2.STUV", "S2.Exact", "S2.Pred"],
         "rule": "unit-length triples / (x,a,b) / (x,y,r) built to sit on the decision boundaries: c = rn(s*a+t*b) +-2 ulps, "
                 "exactly coplanar points (coordinate planes, plane x==y, great circle through a and b, antipodes), identical / "
@@ -234,5 +234,42 @@ PROPS = {
     ],
     "partial": ["loop_and_inverse_partition_partial", "polygon_and_complement_partition_partial", "tiling_two_loops_partial",
                 "CellLoopsTile is a def (tiling by all cells of a level): searched by c04tile, not proved"],
+    },
+    "C03": {
+        # (generator, quick n, thorough n); c03 emits ~1.6 op lines per unit of n (quads, NewEdgeCrosser fields, angles, histories)
+        "generators": [("c03", 12000, 300000)],
+        "modules": ["S2.Crossing", "S2.Crosser", "S2.Pred", "S2.Exact", "S2.STUV", "S2.F64"],
+        "rule": "quadruples (a,b,c,d) of unit vectors: fixed edge AB general / tiny (separations 2^-k down to subnormal) / a few ulps / "
+                "long (near 180 degrees, nearly antipodal) / degenerate / in a coordinate plane / 45-135 degrees; C and D chosen relative to AB: "
+                "shared vertices (1-4), revisited, on the great circle of AB +- ulps, inside AB (T junctions, overlapping collinear edges), "
+                "few ulps from an endpoint, antipodes, just outside an endpoint (outward-tangent test boundary), same coordinate plane "
+                "(exactly collinear), tangent-plane lattice at 2^-k, straddling AB symmetrically, zero coordinates with flipped sign bits. "
+                "Every quadruple is evaluated on all 8 argument orders (CrossingSign, VertexCrossing, EdgeOrVertexCrossing). "
+                "Histories: 1-50 calls on ONE crosser (RestartAt / ChainCrossingSign / CrossingSign / EdgeOrVertexCrossing / "
+                "EdgeOrVertexChainCrossing) over a pool of 3-9 such vertices, chains continue or jump, vertices are revisited; each output is "
+                "compared with a fresh stateless call of the real code, with the model (incl. the field acb after every call and the final c) "
+                "and with the exact specification. Edges with EXACTLY antipodal endpoints are out of contract and never generated. "
+                "non-trivial = a c03quad line decided by the slow path / tangent test / shared-vertex rule (st: token other than fast), "
+                "or a c03hist line with at least 3 calls; distinct = distinct (op, arguments).",
+        "nontrivial": lambda l: (l.startswith("c03quad") and not l.rstrip().endswith("st:fast"))
+                                or (l.startswith("c03hist") and l.split(" = ")[-1].count("/") >= 6),
+        "trusted_base": [
+            "float error analysis is NOT proved: soundness of triageSign, stableSign and of the outward-tangent early rejection "
+            "(maxError = (1.5+1/sqrt 3)*dblEpsilon) are hypotheses (FloatSound) of the *_partial theorems; they are exercised by the oracle "
+            "on every line (judge = exact four-orientation criterion in integer arithmetic)",
+            "algebraic laws of the exact sign (rotation, swap, +-1 on distinct points) are hypotheses (SignLaws), proved for the decision "
+            "model on exact integer vectors in S2Proofs.Properties.C02",
+            "hook s2/verif_export_c03.go: VerifCrosserState (private fields of EdgeCrosser), VerifC03MaxError (a COPY of the local "
+            "expression maxError of crossingSign; the real value is only tested behaviourally)",
+            "this Go port does not normalise PointCross(a,b) before building the tangents (|norm| up to 2), unlike the C++ original whose "
+            "error bound it quotes; no failing input found (2.4e8 targeted trials), modelled as is",
+        ],
+        "assumptions": [
+            "points are unit length within the library's tolerance; no edge has exactly antipodal endpoints (then NewEdgeCrosser uses an "
+            "arbitrary tangent and CrossingSign is not symmetric: see DELIVER notes)",
+            "theorems: on the point set of a history Go == coincides with equality (no NaN, no two points differing only in the sign of a "
+            "zero coordinate) and the zero vector is not a vertex; the generator does produce signed zeros, covered by correspondence only",
+            "a history does not start with a chain call (ChainCrossingSign / EdgeOrVertexChainCrossing before any vertex was given)",
+        ],
     },
 }
